@@ -6,7 +6,7 @@ set -e
 V=${1:-plain}
 VERIF=$(cd "$(dirname "$0")/.." && pwd)
 REPO=${VERIF_REPO:-/repo}
-B=$VERIF/build/$V
+B=${VERIF_BUILD_ROOT:-$VERIF/build}/$V
 mkdir -p "$B"
 exec 9>"$B/.lock"
 flock 9
